@@ -51,6 +51,25 @@ Theorem nest_gpu_visits_seq : forall rho hs,
 Proof. exact Proofs.nest_gpu_visits_seq. Qed.
 Print Assumptions nest_gpu_visits_seq.
 
+(* Loop trees (a loop may hold several sibling loops of its own kind).  In a kernel that
+   kernelHasValidOklLoops accepts every path below a loop holds the same number n of loops of the loop's
+   kind (the loop included); getOklLoopIndex — the largest such number over the paths below, the loop
+   excluded — is then n - 1 = D - 1 - d for the d-th of D loops: the dimension setKernelLaunch wrote. *)
+Theorem loop_index_uniform : forall k cs n,
+  uniform k n (LNode k cs) -> loop_index (LNode k cs) = (n - 1)%nat.
+Proof. exact Proofs.loop_index_uniform. Qed.
+Print Assumptions loop_index_uniform.
+
+(* @outer o { @inner a { @inner b {} @inner c {} } }: a reads component 1, b and c component 0;
+   counting every nested @inner loop instead (seeded variant) would give 2 for a *)
+Example ex_siblings :
+  let t := forked [true; false; false] 2 in
+  t = [LNode true [LNode false [LNode false []; LNode false []]]] /\
+  index_at t 0 = 0%nat /\ index_at t 1 = 1%nat /\ index_at t 2 = 0%nat /\
+  index_at (forked [true; true; true; false] 1) 0 = 2%nat /\
+  index_at (forked [true; true; true; false] 1) 1 = 1%nat.
+Proof. repeat split; reflexivity. Qed.
+
 (* Serial / OpenMP keep the loop statement: its values are the specification's by definition; that the
    emitted header is the written one is checked syntactically by the tie. *)
 Theorem kept_loop_same : forall rho h, spec_values rho (kept_header h) = spec_values rho h.
